@@ -15,7 +15,10 @@
   the session theorems to histories that edit the circuit (`add`, re-tuned parameters); section 12
   is the state-vector path (`evolve`), section 13 `convert_polarized_state(inverse / symbolic)`,
   section 14 heralds / post-selection / photon filter (composition with the C04 conditioning
-  specification).  What is NOT proved is listed at the end of the file.
+  specification); section 15 components known by class (`use_polarization` on every component kind;
+  the top-level theorem from the components' parameters and the photons' angles, without the
+  hypotheses "leaves unitary" / "Jones vectors normalised"); section 16 the input bookkeeping of a
+  `Processor` given a polarised input.  What is NOT proved is listed at the end of the file.
 -/
 import PercevalModel.Lemmas.C13
 import PercevalModel.Props.C01
@@ -24,6 +27,8 @@ import PercevalModel.Lemmas.C13Complex
 import PercevalModel.Lemmas.C13More
 import PercevalModel.Lemmas.C13Session
 import PercevalModel.Lemmas.C13Ext
+import PercevalModel.Lemmas.C13Kinds
+import PercevalModel.Lemmas.C13Proc
 import PercevalModel.Props.C02
 
 open Matrix
@@ -1315,6 +1320,255 @@ theorem polarised_selection_of_circuit (c : PComp GQ) (h : c.WF) (hu : c.AllUnit
 
 end Selection
 
+/-! ### 15. components known by class: `use_polarization` on every component kind, and the
+top-level theorem without the hypotheses "every leaf is unitary" / "every Jones vector is normalised"
+
+`Model/C13Kinds.lean`: a leaf is a `Kind` — an ordinary class (`_supports_polarization = False`) with
+its `k × k` matrix, `WP/HWP/QWP`, `PR`, `PBS`, `Unitary(U, use_polarization=True)` — with the values of
+the cosines and sines of its angles; `leafUnitary` is `ACircuit.compute_unitary(use_polarization=flag)`
+on ONE component. -/
+
+section Kinds
+
+/-- the own matrix of a valid component is unitary: `WP`, `PR` from `cos² + sin² = 1`, `PBS`
+unconditionally, `Unitary(…)` by its constructor's assertion, ordinary classes by C14 -/
+theorem kind_own_isUnitary [CommRing R] [StarRing R] (i : R) (hi : i * i = -1) (hsi : star i = -i)
+    (k : Kind R) (h : k.Valid) : IsUnitary (k.own i).2 := by
+  cases k with
+  | ordinary n U => exact h
+  | wp c s c2 s2 =>
+    obtain ⟨a, b, c', d, e, f⟩ := h
+    exact wp_unitary i _ _ _ _ hi hsi a b c' d e f
+  | pr c s => exact pr_unitary _ _ h.1 h.2.1 h.2.2
+  | pbs => exact pbs_unitary
+  | polU n U => exact h
+
+theorem kind_allUnitary [CommRing R] [StarRing R] (i : R) (hi : i * i = -1) (hsi : star i = -i)
+    (k : Kind R) (h : k.Valid) : (k.toP i).AllUnitary := by
+  cases k with
+  | ordinary n U => exact h
+  | wp c s c2 s2 =>
+    obtain ⟨a, b, c', d, e, f⟩ := h
+    exact wp_unitary i _ _ _ _ hi hsi a b c' d e f
+  | pr c s => exact pr_unitary _ _ h.1 h.2.1 h.2.2
+  | pbs => exact pbs_unitary
+  | polU n U => exact h
+
+/-- **`AllUnitary` discharged**: a circuit built from valid components (any nesting) is a tree of
+unitary leaves, and `requires_polarization` of the tree is that of the components -/
+theorem typed_circuit_allUnitary [CommRing R] [StarRing R] (i : R) (hi : i * i = -1)
+    (hsi : star i = -i) (c : KComp R) (h : c.Valid) :
+    (c.toP i).AllUnitary ∧ (c.toP i).requires = c.requires :=
+  ⟨KComp.toP_allUnitary i (kind_allUnitary i hi hsi) c h, KComp.toP_requires i c⟩
+
+/-- `compute_unitary(use_polarization=flag)` on ONE component of any class: the flag is resolved by
+`resolve` with `requires = _supports_polarization`; a doubled answer is the model's matrix of the leaf
+(`unitaryOfPol`, which the product theorem of section 2 multiplies), a plain answer is the own matrix -/
+theorem leaf_compute_unitary_resolve [CommRing R] (i : R) (k : Kind R) (flag : Option Bool) :
+    leafUnitary i k flag =
+      match resolve k.supports flag with
+      | .error e => .error e
+      | .ok true => .ok ⟨(dbl (k.toP i)).size, unitaryOfPol (k.toP i)⟩
+      | .ok false => .ok (k.own i) :=
+  leafUnitary_resolve i k flag
+
+/-- … concretely, for every class: a polarising class answers its own `2m × 2m` matrix to `None` and
+`True` and refuses `False`; every other class answers its own matrix to `None` / `False` and
+`matrix_double` of it to `True` -/
+theorem leaf_compute_unitary_table [CommRing R] (i : R) (k : Kind R) :
+    (k.supports = true →
+      leafUnitary i k none = .ok (k.own i) ∧ leafUnitary i k (some true) = .ok (k.own i) ∧
+      leafUnitary i k (some false) = .error "AssertionError") ∧
+    (k.supports = false →
+      leafUnitary i k none = .ok (k.own i) ∧ leafUnitary i k (some false) = .ok (k.own i) ∧
+      leafUnitary i k (some true) = .ok ⟨(k.own i).1 * 2, double (k.own i).2⟩) := by
+  constructor <;> intro h <;> simp [leafUnitary, h]
+
+/-- whatever it answers is unitary (the doubled matrix of a single component is unitary) -/
+theorem leaf_compute_unitary_isUnitary [CommRing R] [StarRing R] (i : R) (hi : i * i = -1)
+    (hsi : star i = -i) (k : Kind R) (h : k.Valid) (flag : Option Bool) (M : SqM R)
+    (hM : leafUnitary i k flag = .ok M) : IsUnitary M.2 := by
+  have ho := kind_own_isUnitary i hi hsi k h
+  obtain ⟨h1, h2⟩ := leaf_compute_unitary_table i k
+  cases hs : k.supports
+  · obtain ⟨a, b, c⟩ := h2 hs
+    rcases flag with _ | _ | _
+    · rw [a] at hM; cases hM; exact ho
+    · rw [b] at hM; cases hM; exact ho
+    · rw [c] at hM; cases hM; exact double_isUnitary ho
+  · obtain ⟨a, b, c⟩ := h1 hs
+    rcases flag with _ | _ | _
+    · rw [a] at hM; cases hM; exact ho
+    · rw [c] at hM; cases hM
+    · rw [b] at hM; cases hM; exact ho
+
+/-- `project_eh_ev` of a photon given by valid angle values is a normalised Jones vector -/
+theorem trig_jones_norm [CommRing R] [StarRing R] (i : R) (hi : i * i = -1) (hsi : star i = -i)
+    (t : Trig R) (h : t.Valid) : inner (t.jones i) (t.jones i) = 1 := by
+  obtain ⟨a, b, c, d, e, f⟩ := h
+  exact jones_norm i _ _ _ _ hi hsi a b c d e f
+
+/-- **Top-level theorem from the components and the angles.**  `polarised_simulation_of_input`
+without its hypotheses `AllUnitary` and "Jones vectors normalised": for a circuit of valid components
+(ordinary leaves unitary, the cosine / sine values of every `WP`, `PR` real with `cos² + sin² = 1`) and
+photons given by valid angle values, if the conversion accepts the input then `upol · prep` is unitary
+and the simulated distribution is the merged spatial distribution, of total mass 1 over the `m`-mode
+states with as many photons as the input.  Remaining hypotheses: the ranges `Circuit.add` accepted
+(`WF`), one list of photons per mode, and an exact inverse norm `ρ` where two polarisations share a
+mode. -/
+theorem polarised_simulation_of_kinds (c : KComp GQ) (h : (c.toP GQ.I).WF) (hv : c.Valid)
+    (orth : GQ × GQ → GQ × GQ → Bool) (photons : List (List (Trig GQ)))
+    (hp : ∀ phs ∈ photons, ∀ t ∈ phs, t.Valid) (scans : List (Scan GQ))
+    (hm : photons.length = (c.toP GQ.I).size)
+    (hscan : scanAll orth (photons.map (List.map (Trig.jones GQ.I))) = .ok scans)
+    (ρ : List (GQ × GQ) → GQ) (hρ : ∀ vs, star (ρ vs) = ρ vs)
+    (hn : ∀ sc ∈ scans, ∀ v1 v2 rest, sc.vectors = v1 :: v2 :: rest →
+      ρ sc.vectors * ρ sc.vectors * gsNorm2 v1 v2 = 1) :
+    (spatialInput scans).length = (c.toP GQ.I).size * 2 ∧
+    (spatialInput scans).sum = (photons.map List.length).sum ∧
+    IsUnitary (simMatrix (upolOf (c.toP GQ.I))
+      (prepMatrix (blocksOf true ρ scans (c.toP GQ.I).size))) ∧
+    Dist.mass (polDist (simMatrix (upolOf (c.toP GQ.I))
+      (prepMatrix (blocksOf true ρ scans (c.toP GQ.I).size))) (spatialInput scans)) = 1 ∧
+    ((Fock.allStates (c.toP GQ.I).size (photons.map List.length).sum).map
+      (Dist.get (polDist (simMatrix (upolOf (c.toP GQ.I))
+        (prepMatrix (blocksOf true ρ scans (c.toP GQ.I).size))) (spatialInput scans)))).sum = 1 := by
+  have hI : GQ.I * GQ.I = -1 ∧ star GQ.I = -GQ.I := by decide +kernel
+  have hu := (typed_circuit_allUnitary GQ.I hI.1 hI.2 c hv).1
+  have hnorm : ∀ phs ∈ photons.map (List.map (Trig.jones GQ.I)), ∀ v ∈ phs, inner v v = 1 := by
+    intro phs hphs v hvm
+    obtain ⟨ts, hts, rfl⟩ := List.mem_map.1 hphs
+    obtain ⟨t, ht, rfl⟩ := List.mem_map.1 hvm
+    exact trig_jones_norm GQ.I hI.1 hI.2 t (hp ts hts t ht)
+  have hlen : (photons.map (List.map (Trig.jones GQ.I))).length = (c.toP GQ.I).size := by
+    rw [List.length_map]; exact hm
+  obtain ⟨h1, h2, h3, _, h5, h6⟩ := polarised_simulation_of_input (c.toP GQ.I) h hu orth _ scans hlen
+    hscan hnorm ρ hρ hn
+  have e : ((photons.map (List.map (Trig.jones GQ.I))).map List.length).sum =
+      (photons.map List.length).sum := by
+    rw [List.map_map]; congr 1; apply List.map_congr_left; intro a _; simp
+  rw [e] at h2 h6
+  exact ⟨h1, h2, h3, h5, h6⟩
+
+/-- non-vacuity: the tree `exTree`'s polarising part by class — a rotator and a wave plate at
+Pythagorean angles, a PBS, an ordinary swap — is valid, and so are the photons `H` and an elliptical one -/
+def exKTree : KComp GQ :=
+  .circ 3 (.cons 0 (.leaf (.pr c35 s45)) (.cons 1 (.leaf .pbs)
+    (.cons 0 (.circ 2 (.cons 0 (.leaf (.ordinary 2 swap2)) (.cons 1 (.leaf (.wp c35 s45 c513 s1213)) .nil)))
+      .nil)))
+
+example : exKTree.Valid ∧ (exKTree.toP GQ.I).WF ∧ exKTree.requires = true ∧
+    (⟨c35, s45, c513, s1213⟩ : Trig GQ).Valid ∧ (⟨1, 0, 1, 0⟩ : Trig GQ).Valid := by
+  refine ⟨?_, ?_, rfl, ?_, ?_⟩
+  · simp only [exKTree, KComp.Valid, KItems.Valid, Kind.Valid, and_true]
+    refine ⟨by decide +kernel, trivial, ?_, by decide +kernel⟩
+    unfold IsUnitary; decide +kernel
+  · simp [exKTree, KComp.toP, KItems.toP, Kind.toP, PComp.WF, PItems.WF, PComp.size]
+  · unfold Trig.Valid; decide +kernel
+  · unfold Trig.Valid; decide +kernel
+
+example : leafUnitary GQ.I (.pbs : Kind GQ) (some false) = .error "AssertionError" ∧
+    (∃ M, leafUnitary GQ.I (.ordinary 2 swap2 : Kind GQ) (some true) = .ok M ∧ M.1 = 4) :=
+  ⟨rfl, _, rfl, rfl⟩
+
+end Kinds
+
+/-! ### 16. a `Processor` given a polarised input: the input bookkeeping
+
+`Model/C13Proc.lean`: the fields `_input_state`, `_inputs_map` (cache), noise / source and
+`_min_detected_photons_filter`; requests `with_input`, `with_polarized_input`, `noise = …`,
+`min_detected_photons_filter(v)`, `clear_input_and_circuit()`, `probs()`.  A query reports what is handed
+to the simulator: the input distribution and the photon filter. -/
+
+section Processor
+variable {S I Z D : Type}
+
+/-- the transcript of the object (cache and all) over any history is the transcript of the
+specification without a cache: every `probs()` hands the simulator what the input in force *means*
+for the noise in force — the source's distribution for an ordinary input, `SVDistribution(bs)` for a
+polarised one -/
+theorem proc_refines_stateless (env : PEnv S I Z D) (z : Z) (h : List (POp S I Z)) :
+    (SM.run (procStep env) ⟨none, none, z, none⟩ h).2 =
+      (SM.run (pspecStep env) ⟨none, z, none⟩ h).2 :=
+  (SM.refine_run (procStep env) (pspecStep env) (PTracks env)
+    (fun s a op hr => procStep_tracks env s a op hr) ⟨none, none, z, none⟩ ⟨none, z, none⟩
+    ⟨rfl, rfl, rfl, Or.inl rfl⟩ h).2
+
+/-- **a polarised input reaches the simulator as it is.**  After any history, `with_polarized_input(i)`
+followed by any number of noise changes, filter settings and queries: a `probs()` that passes the
+filter check hands the simulator exactly `SVDistribution(i)` — never a distribution generated by the
+source, whatever the noise models set before or after -/
+theorem proc_polarised_input_exact (env : PEnv S I Z D) (z : Z) (h h' : List (POp S I Z)) (i : I)
+    (hk : ∀ op ∈ h', op.keepsInput = true) (d : Option D) (v : Int)
+    (hq : (procStep env (SM.exec (procStep env) ⟨none, none, z, none⟩ (h ++ .withPol i :: h'))
+      .query).2 = .ok (some (d, v))) :
+    d = some (env.single i) := by
+  have hr := (SM.refine_run (procStep env) (pspecStep env) (PTracks env)
+    (fun s a op hr => procStep_tracks env s a op hr) ⟨none, none, z, none⟩ ⟨none, z, none⟩
+    ⟨rfl, rfl, rfl, Or.inl rfl⟩ (h ++ .withPol i :: h')).1
+  have hs := (procStep_tracks env _ _ .query hr).2
+  change (procStep env (SM.exec (procStep env) _ _) .query).2 =
+    (pspecStep env (SM.exec (pspecStep env) _ _) .query).2 at hs
+  rw [hs] at hq
+  have hin : (SM.exec (pspecStep env) ⟨none, z, none⟩ (h ++ .withPol i :: h')).input =
+      some (.pol i) := by
+    rw [SM.exec_append, SM.exec_cons, pspec_keeps_input env h' hk]
+    rfl
+  simp only [pspecStep] at hq
+  split at hq
+  · cases hq
+  · simp only [Except.ok.injEq, Option.some.injEq, Prod.mk.injEq] at hq
+    rw [← hq.1, hin]
+    rfl
+
+/-- an ordinary input after a noise change is served with the source of the noise *in force* -/
+theorem proc_plain_input_follows_noise (env : PEnv S I Z D) (z z' : Z) (h : List (POp S I Z)) (s : S)
+    (v : Int) :
+    (procStep env (SM.exec (procStep env) ⟨none, none, z, none⟩
+      (h ++ [.withInput s, .setMin v, .setNoise z'])) .query).2 = .ok (some (some (env.gen z' s), v)) := by
+  have hr := (SM.refine_run (procStep env) (pspecStep env) (PTracks env)
+    (fun s a op hr => procStep_tracks env s a op hr) ⟨none, none, z, none⟩ ⟨none, z, none⟩
+    ⟨rfl, rfl, rfl, Or.inl rfl⟩ (h ++ [.withInput s, .setMin v, .setNoise z'])).1
+  have hs := (procStep_tracks env _ _ .query hr).2
+  change (procStep env (SM.exec (procStep env) _ _) .query).2 =
+    (pspecStep env (SM.exec (pspecStep env) _ _) .query).2 at hs
+  rw [hs, SM.exec_append]
+  simp [SM.exec_cons, SM.exec_nil, pspecStep, checkMin, distOf]
+
+/-- the guard `_has_custom_input` of the noise observer is necessary: a design that drops the cache
+on every noise change sends the polarised state through the photon source -/
+theorem eager_design_sends_polarised_through_source :
+    ∃ (env : PEnv Unit Unit Bool String),
+      (eagerStep env (SM.exec (eagerStep env) ⟨none, none, true, none⟩
+        [.withPol (), .setMin 0, .setNoise false]) .query).2 = .ok (some (some "source(pol)", 0)) ∧
+      (procStep env (SM.exec (procStep env) ⟨none, none, true, none⟩
+        [.withPol (), .setMin 0, .setNoise false]) .query).2 = .ok (some (some "single", 0)) :=
+  ⟨⟨fun _ _ => "source(plain)", fun _ _ => "source(pol)", fun _ => "single", id, fun _ => 1,
+    fun _ => 1, 0⟩, rfl, rfl⟩
+
+/-- the automatic photon filter (`check_min_detected_photons_filter`): with no value set, a perfect
+source and an input, `probs()` uses — and keeps — the input's photon number minus the heralded
+photons; with an imperfect source it raises, polarised input or not -/
+theorem proc_auto_filter (env : PEnv S I Z D) (st : Proc S I Z D) (inp : PIn S I)
+    (hm : st.minDet = none) (hi : st.input = some inp) :
+    (env.perfect st.noise = true →
+      ∃ d, (procStep env st .query).2 = .ok (some (d, (inp.n env : Int) - env.hsum)) ∧
+        (procStep env st .query).1.minDet = some ((inp.n env : Int) - env.hsum)) ∧
+    (env.perfect st.noise = false → (procStep env st .query) = (st, .error "ValueError")) := by
+  constructor <;> intro hp <;> simp [procStep, checkMin, hm, hi, hp]
+
+/-- non-vacuity / a concrete history: ordinary input, noise change, polarised input, noise change -/
+example :
+    (SM.run (procStep (⟨fun z s => s!"gen({z},{s})", fun z i => s!"genpol({z},{i})",
+        fun i => s!"single({i})", fun z => z == 0, fun _ => 2, fun _ => 2, 0⟩ : PEnv Nat Nat Nat String))
+      ⟨none, none, 0, none⟩
+      [.withInput 7, .query, .setNoise 1, .query, .withPol 9, .setNoise 2, .query, .clear, .query]).2 =
+    [.ok none, .ok (some (some "gen(0,7)", 2)), .ok none, .ok (some (some "gen(1,7)", 2)), .ok none,
+      .ok none, .ok (some (some "single(9)", 2)), .ok none, .ok (some (none, 2))] := by
+  decide
+
+end Processor
+
 /-!
 ### What is proved here and what is not
 
@@ -1328,7 +1582,14 @@ injective annotation, amplitudes = spatial amplitudes, norm 1, agreement with `p
 branch's block (`symbolic_block_unitary`); heralds / post-selection / photon filter on a polarised
 simulation = the C04 conditioning of the polarised distribution for the repaired layer
 (`polarised_selection_spec`), with the witness of the code as it stood
-(`polProbs_current_fails_on_herald_filter`).
+(`polProbs_current_fails_on_herald_filter`); section 15: `compute_unitary(use_polarization)` on one
+component of every class (`leaf_compute_unitary_resolve / _table / _isUnitary`), a circuit of valid
+components is a tree of unitary leaves (`typed_circuit_allUnitary`) and the top-level theorem with only
+`cos² + sin² = 1`-type hypotheses on the parameters (`polarised_simulation_of_kinds`); section 16: the
+`Processor`'s cached input distribution refines the cache-free specification, a polarised input reaches
+the simulator as `SVDistribution(bs)` whatever the noise history (`proc_refines_stateless`,
+`proc_polarised_input_exact`, `proc_plain_input_follows_noise`, `proc_auto_filter`), and the guard
+`_has_custom_input` is necessary (`eager_design_sends_polarised_through_source`).
 
 NOT proved (validated by the correspondence only, or outside the model):
 * `upolOf`/`blocksOf`/`scanAll` compose the model's definitions as `Driver/C13.lean: envGQ` does
@@ -1351,6 +1612,12 @@ NOT proved (validated by the correspondence only, or outside the model):
 * That the real object has no hidden state beyond `_upol` and the inner circuit, that
   `Parameter.set_value` + `set_circuit` recompiles, and that `Processor.add` is seen by the next
   `probs()` — the session theorems are about the model's machine; model = code by testing.
+* section 16 is about the model's machine `procStep`; that `Processor` has no further state feeding
+  `probs()` (e.g. `with_input(SVDistribution)`, remote processors, `LogicalState` inputs — not
+  described), and that `Source.generate_distribution` is a function of (noise model, state), is
+  validated by testing; photon-source noise on a polarised input is *by-passed* by the code (modelled as
+  it is); loss channels (`LC`) on a polarised processor (`LossSimulator` around the polarisation layer)
+  are neither modelled nor compared here (no theorem ties C07's expansion to the doubling).
 * `cos`, `sin`, `√` themselves, the inner spatial engines (C02), the `k × k` leaf matrices (C14).
 -/
 
